@@ -163,10 +163,12 @@ class C17(Prop):
                 rk["retry_for"] = self.spell(rng, SUBSETS[rf])
             if dn or rng.random() < 0.5:
                 rk["do_not_retry_for"] = self.spell(rng, SUBSETS[dn])
+            late = rng.random() < 0.3
+            names = [rng.choice(["late_op", "op"]) if late else "op" for _j in range(ncalls)]
             out.append({"property": self.id, "history": {"attempts": attempts, "rf": rf, "dn": dn},
                         "world": {"stack": "retrying_stub", "retry_kwargs": rk, "script": script,
-                                  "stub_inherits": rng.random() < 0.3},
-                        "steps": [{"t": "call", "m": "op", "a": [E(b"k%d" % j)], "k": {}} for j in range(ncalls)]})
+                                  "stub_inherits": rng.random() < 0.3, "stub_late": late},
+                        "steps": [{"t": "call", "m": names[j], "a": [E(b"k%d" % j)], "k": {}} for j in range(ncalls)]})
         # end-to-end: real Client, first k attempts fail by injected faults
         for _ in range(2):
             attempts = rng.randint(1, 4)
@@ -290,8 +292,16 @@ class C17(Prop):
         script = list(scn["world"]["script"])
         pos = 0
         sleeps_total = 0
+        late_seen = False
         for rec in res.calls:
             if rec.step < 0:
+                continue
+            if rec.method == "late_op":
+                # a name the wrapper did not see at construction: the property says nothing about how often it is
+                # tried; it only must not change how the ordinary calls after it are retried
+                late_seen = True
+                mine = res.extra["args"][rec.step][0][0]
+                pos += sum(1 for a, _k in stub.calls if a and a[0] == mine)
                 continue
             seq = (script[pos:pos + h["attempts"]] + ["ok"] * h["attempts"])[:h["attempts"]]
             inv, oi, sleeps = reference(h["attempts"], seq, SUBSETS[h["rf"]], SUBSETS[h["dn"]])
@@ -310,7 +320,7 @@ class C17(Prop):
             sleeps_total += sleeps
         if len(stub.calls) != pos:
             out.append(viol("invocation-count-wrong", res.calls[-1], disc="history", expected=pos, got=len(stub.calls)))
-        elif res.world.clock.slept != [delay] * sleeps_total:
+        elif not late_seen and res.world.clock.slept != [delay] * sleeps_total:
             out.append(viol("sleep-log-wrong", res.calls[-1], disc="history", slept=res.world.clock.slept,
                             expected=[delay] * sleeps_total))
         return out
